@@ -933,8 +933,8 @@ fn gen_c14(ch: &mut Chunker, r: &mut Rng, thorough: bool, scale: usize) {
     let ocfg = OptCfg { indents: false, custom_splitters: false, algs: &[0, 0, 1, 2], crlf: true };
     for i in 0..400 * scale {
         let crlf = i % 5 == 0;
-        let tc = TextCfg { max_words: 7, max_paras: 3, ansi: if i % 4 == 0 { Ansi::WellFormed } else { Ansi::None }, unicode: true, ctrl: i % 3 == 0, crlf };
-        let text = if i % 6 == 0 { gen_alpha(r, ALPHA_WRAP, 14) } else { gen_text(r, &tc) };
+        let tc = TextCfg { max_words: 7, max_paras: 3, ansi: if i % 4 == 0 { Ansi::WellFormed } else if i % 4 == 1 { Ansi::Any } else { Ansi::None }, unicode: true, ctrl: i % 3 == 0, crlf };
+        let text = if i % 6 == 0 { gen_alpha(r, ALPHA_WRAP, 14) } else if i % 6 == 3 { gen_alpha(r, ALPHA_ADVERSARIAL, 10) } else { gen_text(r, &tc) };
         let widths = widths_for(r, &text, "", "", true);
         for _ in 0..5 {
             let w_ = *r.pick(&widths);
@@ -1150,6 +1150,21 @@ fn gen_c17(ch: &mut Chunker, r: &mut Rng, thorough: bool, scale: usize) {
         let text = if i % 5 == 1 { gen_alpha(r, ALPHA_ADVERSARIAL, 14) } else { gen_text(r, &tc) };
         for w in widths_for(r, &text, "", "", true).into_iter().take(12) {
             rec_c17(ch, &text, w);
+        }
+    }
+    // a non-ASCII word next to an escape sequence whose payload contains spaces (fill_inplace and wrap both measure word
+    // by word; a whole-line measurement would hide the payload): every width from the display width to the byte length
+    for (i, seq) in ["\u{1b}]8;;a b c d e f\u{7}", "\u{1b}]0;my title\u{1b}\\", "\u{1b}[3 m", "\u{1b}]a b\u{7}", "\u{1b}[1 2 3"].iter().enumerate() {
+        for pre in ["\u{e9} ", "\u{4f60}\u{597d} ", "ab ", ""] {
+            for post in ["x", " x y", "\u{e9}"] {
+                let text = format!("{}{}{}", pre, seq, post);
+                let dw = display_width_oracle(&text);
+                for w in dw.saturating_sub(1)..=text.len() + 1 {
+                    if (w + i) % 2 == 0 || w <= dw + 2 {
+                        rec_c17(ch, &text, w);
+                    }
+                }
+            }
         }
     }
 }
